@@ -6396,6 +6396,45 @@ def loop_concatenate(func, index):
 
 
 @util.shallow_replace
+def _replace_loop_ids(obj, mapping):
+    if isinstance(obj, _LoopId):
+        return mapping.get(obj)
+
+
+def disjoint_loop_ids(target, values):
+    '''Rename the loops of ``values`` that share an id with a loop of ``target``.
+
+    Arrays that are to be substituted for arguments of ``target`` are
+    constructed outside the loops of ``target``. If a value contains a loop
+    with the same id as a loop of ``target`` in which the argument occurs, the
+    substitution would nest two loops with the same index. This function
+    returns ``values`` with the ids of such loops replaced by ids that occur in
+    neither (capture avoiding substitution).
+
+    Args
+    ----
+    target : :class:`Array`
+        The array in which the substitution will take place.
+    values : :class:`dict` of :class:`Array`
+        The replacement values.
+
+    Returns
+    -------
+    :class:`dict` of :class:`Array`
+    '''
+
+    values = {name: asarray(value) for name, value in values.items()}
+    taken = {loop.loop_id for loop in target._loops}
+    used = {loop.loop_id for value in values.values() for loop in value._loops}
+    clashing = used & taken
+    if not clashing:
+        return values
+    fresh = (loop_id for loop_id in (_LoopId(f'_renamed_{i}') for i in itertools.count()) if loop_id not in taken and loop_id not in used)
+    mapping = {loop_id: next(fresh) for loop_id in sorted(clashing, key=str)}
+    return {name: _replace_loop_ids(value, mapping) for name, value in values.items()}
+
+
+@util.shallow_replace
 def replace_arguments(value, arguments):
     '''Replace :class:`Argument` objects in ``value``.
 
